@@ -563,9 +563,27 @@ class Summarizer:
         v = subst(e, st.env)
         if self.local_defs:
             v = self._inline_local(v, st, 0)
+            v = self._local_defs_as_values(v, st)
         if self.inline_call is not None:
             v = self.inline_call(v)
         return v
+
+    def _local_defs_as_values(self, v, st):
+        """a simple local function that is passed as a value (`key=weight`) is the lambda with the same body"""
+        me = self
+        called = {id(n.func) for n in ast.walk(v) if isinstance(n, ast.Call)}
+
+        class L(ast.NodeTransformer):
+            def visit_Name(self, node):
+                if isinstance(node.ctx, ast.Load) and node.id in me.local_defs and id(node) not in called:
+                    params, defaults, ret = me.local_defs[node.id]
+                    if defaults:
+                        return node
+                    outer = {k: v2 for k, v2 in st.env.items() if k not in params}
+                    args = ast.arguments(posonlyargs=[], args=[ast.arg(arg=p) for p in params], kwonlyargs=[], kw_defaults=[], defaults=[])
+                    return ast.Lambda(args=args, body=subst(clone(ret), outer))
+                return node
+        return L().visit(v)
 
     def _inline_local(self, v, st, depth):
         """calls to side-effect-free closures defined in this function are replaced by their value"""
